@@ -5,6 +5,8 @@ set -e
 cd "$(dirname "$0")"
 exec 9> .build.lock
 flock 9
+# regenerate the MiniPy terms of the translated source units from the working tree (theories/Gen/*.v)
+/venv/bin/python ../harness/py2coq/translate.py --out theories/Gen > .gen.log 2>&1 || { cat .gen.log; exit 3; }
 {
   echo "-Q theories PV"
   echo "-arg -w -arg -notation-overridden,-deprecated-hint-without-locality,-deprecated-instance-without-locality,-deprecated-syntactic-definition"
@@ -17,4 +19,4 @@ else
   rm -f _CoqProject.new
   [ -f Makefile.coq ] || coq_makefile -f _CoqProject -o Makefile.coq > /dev/null
 fi
-timeout ${VERIF_BUILD_TIMEOUT:-3000} make -f Makefile.coq -j${VERIF_JOBS:-16} "$@"
+timeout ${VERIF_BUILD_TIMEOUT:-3000} make -k -f Makefile.coq -j${VERIF_JOBS:-16} "$@"
